@@ -212,6 +212,14 @@ def judge(ctx, spec, positions=POSITIONS):
             fn(g, *args)
         except Exception as e:
             ctx.violate_exc(f"{name}:raises", f"{name}:raises:{spec['type']}:{type(e).__name__}", e, spec={"kind": name, "g": spec})
+    if ctx.evaluations % 3 == 0:
+        try:
+            geoms.edit_in_place(g, ctx.rng)
+            spec = geoms.to_spec(g)
+            ctx.mon("after_in_place_edit")
+            G.compute_bounds(g); G.geometry_to_shapely(g); G.compute_geometric_features(g)
+        except Exception as e:
+            ctx.violate_exc("raises_after_edit", f"raises_after_in_place_edit:{spec['type']}:{type(e).__name__}", e, spec={"kind": "bounds", "g": spec})
     valid = geoms.is_shapely_valid(g)
     for p in positions:
         try:
